@@ -10,8 +10,11 @@ META = {
     "engine": "DiffOps.tla",
     "text": ("TLC checks symmetry, x'Px=|Dx|^2>=0, exact null space (rational Gauss-Jordan rank), documented bands and the "
              "Kronecker stacking on every configuration of the bounded instance (1-D n<=6/9, 2-D n<=3/4, all boundary "
-             "conditions, orders 1-2) and emits the integer operators; the harness compares the real operators, "
-             "PrecisionFiniteDifference and the GMRF/LMRF/CMRF quantities with them for every configuration."),
+             "conditions, orders 1-2) and emits the integer operators; a named deviation (rank claimed from the boundary "
+             "condition alone) must be refuted by the exact rank. The harness compares the real operators (entries, action "
+             "on a vector, grid spacing), PrecisionFiniteDifference and the GMRF (rank, log pseudo-determinant, quadratic "
+             "form, sqrtprec, orders 0-2) / LMRF / CMRF (vector and scalar location, every boundary condition of the "
+             "first-order operator) quantities with them for every configuration."),
     "note": ("Bounded sizes; sign convention of `backward` rows and multiplicity of the periodic wrap row are not documented "
              "and are recorded as observations, not asserted. log pseudo-determinant evaluated numerically from TLC's "
              "integer precision matrix."),
@@ -97,7 +100,7 @@ def check_operator(ctx, c, variants):
     if c["pd"] == 1:
         for dx in (0.5, 2.0):
             exp = A / dx ** c["order"]
-            ctx.case(("dx", _key(c), dx))
+            ctx.case(("dx", _key(c), dx), facet="grid_spacing")
             try:
                 M = _build_op(c, dx).get_matrix()
                 Adx = np.asarray(M.todense() if hasattr(M, "todense") else M, dtype=float)
@@ -117,7 +120,7 @@ def check_precision(ctx, c, chosen, order):
     P = _arr(chosen["P"], dim)
     op = cuqi.operator.PrecisionFiniteDifference(nn, bc_type=c["bc"], order=order)
     Pc = np.asarray(op.get_matrix().todense(), dtype=float)
-    ctx.case(("prec", _key(c), order))
+    ctx.case(("prec", _key(c), order), facet="precision")
     if not np.array_equal(Pc, P):
         ctx.mismatch("precision/" + _key(c).replace("order=%d" % c["order"], "order=%d" % order), c,
                      "PrecisionFiniteDifference is not D^T D of the specification", P, Pc)
@@ -154,7 +157,7 @@ def check_mrf_logpdfs(ctx, c, D, bc, geom, x, loc, keyo, documented=True):
                 else:
                     ctx.observations.setdefault("mrf_refuses_boundary_condition", {})[bc] = repr(e)[:100]
                 return
-            ctx.case(("lmrf_cmrf", keyo, lname, scale))
+            ctx.case(("lmrf_cmrf", keyo, lname, scale), facet="lmrf_cmrf/bc=%s/loc=%s" % (bc, lname))
             exp_l = k * (-math.log(2 * scale)) - np.abs(Dx).sum() / scale
             exp_c = float(np.sum(np.log(scale / (math.pi * (scale ** 2 + Dx ** 2)))))
             for nm, dist, exp, what in (("lmrf", lm, exp_l, "LMRF.logpdf is not the Laplace density of D(x-location)"),
@@ -190,7 +193,7 @@ def check_priors(ctx, c, chosen, order):
     except Exception as e:
         ctx.mismatch("gmrf_construct/" + keyo, c, "GMRF cannot be constructed for a documented configuration: %r" % e)
         return
-    ctx.case(("gmrf", keyo))
+    ctx.case(("gmrf", keyo), facet="gmrf/bc=%s/order=%d" % (bc, order))
     try:
         l1, l2 = _num(gm[0].logpdf(mean)), _num(gm[1].logpdf(mean))
         lx = [_num(g.logpdf(x)) for g in gm]
@@ -217,7 +220,7 @@ def check_priors(ctx, c, chosen, order):
     except Exception:
         rank_attr = None
     if isinstance(rank_attr, (int, float, np.integer, np.floating)):
-        ctx.case(("gmrf_rank_property", keyo))
+        ctx.case(("gmrf_rank_property", keyo), facet="gmrf_rank_property")
         if int(rank_attr) != rank or rank_attr != int(rank_attr):
             ctx.mismatch("gmrf_rank_property/" + keyo, c, "GMRF.rank is not the rank of its precision", rank, rank_attr)
     # quadratic form uses P and the shifted variable
@@ -240,7 +243,7 @@ def check_priors(ctx, c, chosen, order):
 def run_config(ctx, variants):
     """variants: the TLC cases of one (pd, n, bc, order) (one per wrap multiplicity)."""
     c = variants[0]
-    ctx.case(("operator", _key(c)))
+    ctx.case(("operator", _key(c)), facet="operator/pd=%d/order=%d" % (c["pd"], c["order"]))
     chosen = check_operator(ctx, c, variants)
     if chosen is None:
         return
